@@ -25,6 +25,71 @@ class NFW:
         return self.mdef.halo_density(self.z, self.cosmo) * c ** 3 / (3 * self._h(c))
 
 
+def install_halomod_standin():
+    """halomod is not installed here; MassFunction.dndm's conversion branch imports `halomod.profiles.NFW` and
+    `halomod.concentration.Duffy08` only to build the default profile. Provide those two names (backed by the harness NFW above) so
+    the branch can run. Nothing is installed when a real halomod is importable."""
+    import sys, types
+    try:
+        import halomod.profiles  # noqa
+        return "real"
+    except Exception:
+        pass
+
+    class Duffy08:
+        def __init__(self, cosmo=None, **kw):
+            self.cosmo = cosmo
+
+    class NFWStub(NFW):
+        def __init__(self, cm_relation=None, mdef=None, z=0.0, **kw):
+            c = cm_relation.cosmo
+            NFW.__init__(self, mdef, z, getattr(c, "cosmo", c))
+    hm, hp, hc = types.ModuleType("halomod"), types.ModuleType("halomod.profiles"), types.ModuleType("halomod.concentration")
+    hp.NFW, hc.Duffy08, hm.profiles, hm.concentration = NFWStub, Duffy08, hp, hc
+    sys.modules.update({"halomod": hm, "halomod.profiles": hp, "halomod.concentration": hc})
+    return "stand-in"
+
+
+def _cum(m, dn, x):
+    from scipy.interpolate import InterpolatedUnivariateSpline as S
+    s = S(np.log(m), np.log(dn), k=3)
+    out = []
+    for xx in x:
+        l = np.linspace(np.log(xx), np.log(m[-1]), 4000)
+        out.append(np.trapezoid(np.exp(s(l) + l), l))
+    return np.array(out)
+
+
+def conservation(viol, quick):
+    """n'(>m_new(m)) = n(>m): MassFunction with conversion enabled vs the same object in the fit's measured definition, where
+    m_new is the conversion of m at the *object's own* redshift and cosmology"""
+    from hmf.mass_function.hmf import MassFunction
+    install_halomod_standin()
+    cases = [("SMT", "SOCritical", {"overdensity": 200}, 0.0, {}), ("SMT", "SOMean", {"overdensity": 500}, 1.0, {}),
+             ("Warren", "SOCritical", {"overdensity": 200}, 0.0, {"Om0": 0.25}), ("Behroozi", "SOMean", {"overdensity": 200}, 1.0, {"Om0": 0.4, "H0": 62.0})]
+    if not quick:
+        cases += [("Jenkins", "SOVirial", {}, 2.0, {}), ("ST", "SOCritical", {"overdensity": 500}, 0.5, {"Om0": 0.35}), ("Crocce", "SOMean", {"overdensity": 200}, 3.0, {"H0": 75.0})]
+    n = 0
+    for fit, mdl, mp, z, cp in cases:
+        kw = dict(transfer_model="EH", hmf_model=fit, Mmin=9.0, Mmax=16.5, dlog10m=0.05, z=z, cosmo_params=dict(cp), lnk_min=-12.0, lnk_max=10.0, dlnk=0.1)
+        try:
+            a = MassFunction(mdef_model=mdl, mdef_params=dict(mp), disable_mass_conversion=False, **kw)
+            b = MassFunction(disable_mass_conversion=True, **kw)
+            meas = a.hmf.measured_mass_definition
+            m = 10 ** np.linspace(11, 14, 7)
+            mnew = meas.change_definition(m, a.mdef, profile=NFW(meas, z, a.cosmo), z=z, cosmo=a.cosmo)[0]
+            n0, n1 = _cum(b.m, b.dndm, m), _cum(a.m, a.dndm, mnew)
+        except Exception as e:
+            viol("dndm-conversion/raises", f"MassFunction.dndm with mass conversion enabled raises {type(e).__name__}: {e} ({fit} -> {mdl}, z={z})", {"fit": fit, "mdef": mdl, "z": z, "cosmo_params": cp})
+            continue
+        n += 1
+        err = float(np.max(np.abs(n1 / n0 - 1)))
+        if not err < 0.03:
+            viol("dndm-conversion/number-not-conserved", f"{fit} converted from {meas} to {a.mdef} at z={z}, cosmo_params={cp}: n'(>m_new(m)) differs from n(>m) by up to {err:.3g} "
+                 f"(m_new at the object's own redshift and cosmology)", {"fit": fit, "mdef": mdl, "mdef_params": mp, "z": z, "cosmo_params": cp})
+    return n
+
+
 def run(ctx):
     quick = ctx["tier"] == "quick"
     realfuzz.init()
@@ -34,7 +99,7 @@ def run(ctx):
     import astropy.units as u
     out = {"violations": [], "broken": [], "coverage": {}, "assumptions": [
         "halo-mass conversion uses a harness-supplied NFW profile with a Duffy-like c(m); brentq accuracy 1e-8 relative is tolerated",
-        "conservation of cumulative number under conversion of a whole mass function needs halomod: not exercised"]}
+        "halomod is not installed: MassFunction.dndm's conversion branch is run with a stand-in for halomod.profiles.NFW / halomod.concentration.Duffy08 backed by the harness NFW (tolerance 3% on cumulative number: spline + quadrature)"]}
     V = out["violations"]
 
     def viol(key, what, rp=None):
@@ -128,6 +193,8 @@ def run(ctx):
             da, db = a.halo_density(z, cosmo), b.halo_density(z, cosmo)
             if (db > da and not np.all(mb < m)) or (db < da and not np.all(mb > m)):
                 viol("conversion/denser-smaller", f"{a} -> {b} at z={z}: denser definition does not give a smaller mass", {"a": str(a), "b": str(b), "z": z})
+        # a whole mass function converted to another definition conserves cumulative number, at the object's own z and cosmology
+        ncons = conservation(viol, quick)
         # measured definitions of the fits parse to the expected classes
         nfit = 0
         for name, cls in ff.FittingFunction._plugins.items():
@@ -149,7 +216,7 @@ def run(ctx):
         "evaluations": len(reqs) + nconv * 3 + ncol + nfit, "programs": len(exp), "disagreements_checked": 2 * len(exp), "traces_validated_against_impl": len(exp),
         "distinct_nontrivial": len(exp) + nconv,
         "rule": "random cosmologies sharing astropy's clone name, repeated redshifts, four definition classes x five methods: real vs generated term vs spec term with Om(z) and rho_crit(z) taken directly from astropy; conversions between random ordered pairs of definitions with random/derived concentrations in default and modified cosmologies",
-        "gen_disagreements": ngen_bad, "spec_disagreements": nspec_bad, "conversions": nconv, "fits_parsed": nfit,
+        "gen_disagreements": ngen_bad, "spec_disagreements": nspec_bad, "conversions": nconv, "fits_parsed": nfit, "mass_function_conversions": ncons,
         "samples": [{"name": e[0], "case": e[2], "impl": e[1][:2].tolist()} for e in exp[:2]],
         "search": "real methods vs spec terms and vs astropy directly",
     }
